@@ -24,14 +24,15 @@ RULE = ("lists of 1..5 random well-formed trees (2..12 tips, rooted / unrooted /
         "byte B-2..B+1 of a line longer than bufio's buffer, B = 4096, 8192, 65536 thorough; three trees per file, also as second "
         "line); numbers: dyadic, or (16% of the lists) full-precision binary64 values -- random 52-bit mantissas over 40 binades, "
         "one ulp beside short decimals, results of float arithmetic (0.1*3, 1/3, 0.1+0.2) -- on every chain, "
-        "compared exactly; 30% of the lists are PhyloXML-born / named through the API: inner nodes with name AND support (AND length), "
+        "compared exactly; 15% of the lists have inner node names that begin like a support/p-value pair but are names "
+        "(85.2/0.99/100, 1/2/3, 0.5/0.25x, 1e3/2/ ...); 30% of the lists are PhyloXML-born / named through the API: inner nodes with name AND support (AND length), "
         "name only, support only, neither, named roots; every list is also rendered here (not by the writer under test) as a "
         "PhyloXML document (<name>/<branch_length>/<confidence> in any order, indented or not, tips through <taxonomy>) and goes "
         "document -> tree, document -> WritePhyloXML -> tree (oracle: name, length and support of every clade), document -> "
         "Newick / Nexus -> tree (oracle: the tree without the supports that Newick cannot print beside a name; the rest by "
         "correspondence), single-tree accessor on the document; 30% of the lists are also rendered here as a Nexus file whose TREE "
-        "statements are spread over two or three TREES blocks (empty blocks included; no TRANSLATE table, one in every block, or in "
-        "the first only; TAXA block before / between) and read with the multi-tree and the single-tree reader (oracle: every tree "
+        "statements are spread over two or three TREES blocks (empty blocks included; no TRANSLATE table, the same one in every block, in "
+        "the first only, or one per block with the same keys 1..n for the taxa in another order; TAXA block before / between) and read with the multi-tree and the single-tree reader (oracle: every tree "
         "in file order, or an error record); the command line (extra): `gotree reformat newick|nexus|nexus --translate|phyloxml -i IN [-o OUT]` on 6 lists (60 thorough) with "
         "OUT fresh / an existing longer file / an existing shorter file / stdout (byte-identical), input from file and stdin, output "
         "read back with `reformat newick -f <fmt>` against the input; every list is "
@@ -117,6 +118,25 @@ def make_tree(rng, names, numbers="dyadic"):
                     e["len"] = full_double(rng)
                 if e["sup"] is not None and rng.random() < 0.6:
                     e["sup"] = full_double(rng, unit=True)
+    return t
+
+def slash_labels(rng, t):
+    """inner node names that begin like a support/p-value pair but are not one: <float>/<float>/<anything>,
+    <float>/<float><letters>, 1/2/3, 1e3/2/ (IQ-TREE writes three-valued branch labels such as 85.2/0.99/100): names, legal in
+    the three formats; the branch above has no support"""
+    k = 0
+    for x in preorder(t):
+        for e, c in kids(x):
+            if not kids(c) or rng.random() < 0.5:
+                continue
+            k += 1
+            a = rng.choice(["85.2", "1", "0.5", "1e3", "100", "0", ".5", "+1", "-2", "7e-2", "99.9"])
+            b = rng.choice(["0.99", "2", "0.25", "1", "0", "1e-3", ".5", "-0"])
+            c["name"] = rng.choice(["%s/%s/%d" % (a, b, 100 - k), "%s/%s/" % (a, b), "%s/%s/%d/%d" % (a, b, k, k),
+                                    "%s/%sx%d" % (a, b, k), "%s/%s_%d" % (a, b, k), "%s/%s/n%d" % (a, b, k),
+                                    "%s/%s-%d" % (a, b, k), "%s/%se" % (a, b), "%s/%s%%" % (a, b)])
+            e["sup"] = None
+            e["pv"] = None
     return t
 
 def _make_tree(rng, names):
@@ -218,19 +238,21 @@ def _renamed(t, m):
 
 def nx_doc(rng, trees, same_taxa):
     """the trees as a Nexus file whose TREE statements are spread over two or three TREES blocks (some of them possibly
-    empty), rendered here: no TRANSLATE table, the same table in every non-empty block, or in the first block only (the later
-    blocks use its indices); a TAXA block before or between when the trees share their taxa.  Returns (text, plan)"""
+    empty), rendered here: no TRANSLATE table, the same table in every non-empty block, in the first block only (the later
+    blocks use its indices), or a table of its own in every non-empty block with the same keys 1..n for the taxa in another
+    order; a TAXA block before or between when the trees share their taxa.  Returns (text, plan)"""
     k = len(trees)
     nb = rng.choice([2, 2, 2, 3])
     cuts = sorted(rng.randint(0, k) for _ in range(nb - 1))
     groups = [list(range(a, b)) for a, b in zip([0] + cuts, cuts + [k])]
-    tables = rng.choice(["none", "none", "all", "first"])
+    tables = rng.choice(["none", "none", "all", "first", "perm", "perm"])
     tips = []
     for t in trees:
         for x in preorder(t):
             if not kids(x) and x["name"] not in tips:
                 tips.append(x["name"])
     idx = {n: str(i + 1) for i, n in enumerate(tips)}
+    order = list(tips)
     taxa = "BEGIN TAXA;\n DIMENSIONS NTAX=%d;\n TAXLABELS %s;\nEND;\n" % (len(tips), " ".join(tips))
     where = rng.choice(["", "", "before", "between"]) if same_taxa else ""
     out = ["#NEXUS\n"]
@@ -239,9 +261,16 @@ def nx_doc(rng, trees, same_taxa):
     seen_nonempty = False
     for bi, g in enumerate(groups):
         out.append("BEGIN TREES;\n")
-        tab = tables == "all" and g or tables == "first" and not seen_nonempty and g
+        tab = tables in ("all", "perm") and g or tables == "first" and not seen_nonempty and g
         if tab:
-            out.append(" TRANSLATE\n" + ",\n".join("  %s %s" % (idx[n], n) for n in tips) + "\n ;\n")
+            if tables == "perm":
+                # every block has its own table: the SAME keys 1..n for the taxa in ANOTHER order (as two outputs of
+                # `reformat nexus --translate` whose first trees list the tips in different orders, concatenated)
+                order = list(tips)
+                if seen_nonempty or rng.random() < 0.5:
+                    rng.shuffle(order)
+                idx = {n: str(i + 1) for i, n in enumerate(order)}
+            out.append(" TRANSLATE\n" + ",\n".join("  %s %s" % (idx[n], n) for n in order) + "\n ;\n")
         for i in g:
             t = _renamed(trees[i], idx) if tables != "none" else trees[i]
             out.append(" TREE tree%d = %s\n" % (i, newick(t)))
@@ -380,7 +409,11 @@ def gen(rng, tier):
                 nm = rng.sample(names, max(2, len(names) - rng.choice([1, 2]))) if rng.random() < 0.6 and len(names) > 2 else names + ["extra%d" % i]
             trees.append(make_tree(rng, nm, numbers))
         born = "newick"
-        if rng.random() < 0.3:
+        if rng.random() < 0.15:
+            born = "newick-slash"
+            for t in trees:
+                slash_labels(rng, t)
+        elif rng.random() < 0.3:
             born = "phyloxml"
             for t in trees:
                 px_born(rng, t, numbers)
